@@ -1,4 +1,4 @@
-import Spdc.Real.CrystalAxes
+import Spdc.Real.CrystalClass
 /-!
 # C01 — principal refractive indices: Sellmeier data, bounds, monotonicity, class, windows, ids,
 temperature law
@@ -51,6 +51,46 @@ theorem indices_bounds (c : Crystal) {T : ℝ} (hT1 : Tmin ≤ T) (hT2 : T ≤ T
 example : (indices Crystal.BBO_1 (1550e-9 : ℝ) Tref).z < (indices Crystal.BBO_1 (800e-9 : ℝ) Tref).z :=
   (indices_strictAnti_in_wavelength .BBO_1 (by norm_num [Tmin, Tref]) (by norm_num [Tmax, Tref])
     (by norm_num [windowLo]) (by norm_num) (by norm_num [windowHi])).2.2
+
+/-! ## T4 — declared optical class
+
+Uniaxial crystals have two equal indices; every crystal declared `NegativeUniaxial` has
+`n_e = n_z < n_o = n_x`; positive biaxial crystals have `n_z` above `n_x` and `n_y` — at every
+wavelength of the window and every temperature of the range.  (No built-in crystal is declared
+`PositiveUniaxial` or `NegativeBiaxial`; the statement says nothing about the latter.)  The strict
+inequalities come from kernel-checked antitone-partition certificates
+(`Spdc/Real/CrystalCert.lean`, points found by the untrusted `tools/c01_cert.py`). -/
+
+theorem optical_class (c : Crystal) {T : ℝ} (hT1 : Tmin ≤ T) (hT2 : T ≤ Tmax) {lam : ℝ}
+    (h1 : windowLo c ≤ lam) (h2 : lam ≤ windowHi c) :
+    ((axisType c).isUniaxial = true → (indices c lam T).x = (indices c lam T).y) ∧
+    (axisType c = .NegativeUniaxial → (indices c lam T).z < (indices c lam T).x) ∧
+    (axisType c = .PositiveUniaxial → (indices c lam T).x < (indices c lam T).z) ∧
+    (axisType c = .PositiveBiaxial →
+      (indices c lam T).x < (indices c lam T).z ∧ (indices c lam T).y < (indices c lam T).z) := by
+  cases c
+  case BBO_1 => exact ⟨fun _ => rfl, fun _ => bbo_ze_lt_xo hT1 hT2 h1 h2, by simp [axisType], by simp [axisType]⟩
+  case KTP => exact ⟨by simp [axisType, AxisType.isUniaxial], by simp [axisType], by simp [axisType],
+      fun _ => ⟨ktp_x_lt_z hT1 hT2 h1 h2, ktp_y_lt_z hT1 hT2 h1 h2⟩⟩
+  case BiBO_1 => exact ⟨by simp [axisType, AxisType.isUniaxial], by simp [axisType], by simp [axisType],
+      fun _ => ⟨bibo_x_lt_z hT1 hT2 h1 h2, bibo_y_lt_z hT1 hT2 h1 h2⟩⟩
+  case LiNbO3_1 => exact ⟨fun _ => rfl, fun _ => ln_ze_lt_xo hT1 hT2 h1 h2, by simp [axisType], by simp [axisType]⟩
+  case LiNb_MgO => exact ⟨fun _ => rfl, fun _ => mgo_ze_lt_xo hT1 hT2 h1 h2, by simp [axisType], by simp [axisType]⟩
+  case KDP_1 => exact ⟨fun _ => rfl, fun _ => kdp_ze_lt_xo hT1 hT2 h1 h2, by simp [axisType], by simp [axisType]⟩
+  case AgGaSe2_1 => exact ⟨fun _ => rfl, fun _ => ags1_ze_lt_xo hT1 hT2 h1 h2, by simp [axisType], by simp [axisType]⟩
+  case AgGaSe2_2 => exact ⟨fun _ => rfl, fun _ => ags2_ze_lt_xo hT1 hT2 h1 h2, by simp [axisType], by simp [axisType]⟩
+  case LiIO3_2 => exact ⟨fun _ => rfl, fun _ => lio2_ze_lt_xo hT1 hT2 h1 h2, by simp [axisType], by simp [axisType]⟩
+  case LiIO3_1 => exact ⟨fun _ => rfl, fun _ => lio1_ze_lt_xo hT1 hT2 h1 h2, by simp [axisType], by simp [axisType]⟩
+  case AgGaS2_1 => exact ⟨fun _ => rfl, fun _ => ags_ze_lt_xo hT1 hT2 h1 h2, by simp [axisType], by simp [axisType]⟩
+
+/-- the declared axis type in the metadata is the one the class theorem speaks about -/
+theorem meta_axisType (c : Crystal) : (getMeta (α := ℝ) c).axisType = axisType c := by
+  cases c <;> rfl
+
+/-- non-vacuity: AgGaS2 at its narrowest point (500 nm, 200 °C) -/
+example : (indices Crystal.AgGaS2_1 (500e-9 : ℝ) Tmax).z < (indices Crystal.AgGaS2_1 (500e-9 : ℝ) Tmax).x :=
+  (optical_class .AgGaS2_1 (by norm_num [Tmin, Tmax]) (le_refl _) (by norm_num [windowLo])
+    (by norm_num [windowHi])).2.1 rfl
 
 /-! ## T5 — metadata, windows, identifiers -/
 
